@@ -153,7 +153,15 @@ class Boundary(object):
             action = mon.fault(rec, idx) if (mon.fault is not None and rec is not None) else None
             if action == "raise":
                 raise InjectedSolverFault("injected solver failure at inner solve %d" % idx)
-            status, name, value = o_solve(w, **kw)
+            try:
+                status, name, value = o_solve(w, **kw)
+            except BaseException as e:
+                if type(e).__name__ == "PanicException":
+                    # a crash inside the native solver (Rust panic in Clarabel: "Eigval error") derives from BaseException;
+                    # for the harness it is a solver failure like any other
+                    mon.counts["solver_panics"] = mon.counts.get("solver_panics", 0) + 1
+                    raise SolverPanic("the solver crashed: %s" % (str(e)[:200],)) from None
+                raise
             if rec is not None:
                 G, F = w.get_primal_variables()
                 rec["inner"].append({"status": str(status), "value": value, "solver": name,
@@ -197,6 +205,10 @@ class Boundary(object):
             setattr(cls, n, o)
         self._orig = {}
         self.installed = False
+
+
+class SolverPanic(Exception):
+    """A crash of the native solver, re-raised as an ordinary exception at the wrapper boundary."""
 
 
 class InjectedSolverFault(Exception):
